@@ -238,7 +238,7 @@ impl MulAssign<&Self> for LazyBigint {
             *b0 *= b1;
             return;
         }
-        *self = (self as &Self) + rhs;
+        *self = (self as &Self) * rhs;
     }
 }
 
